@@ -162,6 +162,14 @@ pub fn op_usize<A: HC, const K: usize>(op: &str, a: &KArgs<A>) -> R<String> {
         "toseq" => show(&Seq::<A>::from(mk::<A, K, usize>(a.v))),
         "int" => usize::from(&mk::<A, K, usize>(a.v)).to_string(),
         "fromint" => Kmer::<A, K, usize>::from(a.v as usize).bs.to_string(),
+        // k-mers decoded from integers order like the integers (From<usize> for usize / u64 storage, From<u64>)
+        "cmpint" => {
+            let (a1, b1) = (a.v as usize, a.v2 as usize);
+            let (x, y): (Kmer<A, K, usize>, Kmer<A, K, usize>) = (Kmer::from(a1), Kmer::from(b1));
+            let (x6, y6): (Kmer<A, K, u64>, Kmer<A, K, u64>) = (Kmer::from(a1 as u64), Kmer::from(b1 as u64));
+            let (x7, y7): (Kmer<A, K, u64>, Kmer<A, K, u64>) = (Kmer::from(a1), Kmer::from(b1));
+            format!("{} {} {} {} {} {}", x.bs == y.bs, x.bs < y.bs, x6.bs == y6.bs, x6.bs < y6.bs, x7.bs < y7.bs, x == mk::<A, K, usize>(a.v))
+        }
         "fromint64" => {
             let x: Kmer<A, K, u64> = Kmer::from(a.v as u64);
             let y: Kmer<A, K, u64> = Kmer::from(a.v as usize);
@@ -362,7 +370,7 @@ pub fn op_kmers_adapt<A: HC, const K: usize>(ad: &str, arg: usize, x: &SeqSlice<
     Ok(if out.is_empty() { "-".to_string() } else { out.join(",") })
 }
 
-pub const USIZE_OPS: &[&str] = &["tryseq", "deref", "toseq", "int", "fromint", "fromint64", "rev", "revmut", "eqstr", "eqseq", "iterhash", "kmers"];
+pub const USIZE_OPS: &[&str] = &["tryseq", "deref", "toseq", "int", "fromint", "fromint64", "cmpint", "rev", "revmut", "eqstr", "eqseq", "iterhash", "kmers"];
 pub const DNA_OPS: &[&str] = &["comp", "revcomp", "compmut", "revcompmut", "canon"];
 pub const ORD_OPS: &[&str] = &["cmp", "minmax", "minafter", "minnth"];
 
@@ -479,7 +487,7 @@ pub fn query<A: HC>(q: &str, t: &mut Toks) -> R<String> {
                     a.v = val(t)?;
                     a.n = t.num()?;
                 }
-                "eqk" | "cmp" => {
+                "eqk" | "cmp" | "cmpint" => {
                     a.v = val(t)?;
                     a.v2 = val(t)?;
                 }
